@@ -771,6 +771,71 @@ def rule_R9z(text, log):
         text = text[:c['recv_start']] + after + text[end:]
 
 
+def rule_R22(text, log):
+    """match E { Some("a") => A, Some("b") => B, ..., _ => D }   (every pattern but the last a Some(string literal))  ==>
+       { let m__ = E; if opt_str_is(&m__, "a") { A } else if opt_str_is(&m__, "b") { B } ... else { D } }
+    (first matching arm wins; the literals are pairwise distinct, checked here)"""
+    while True:
+        m = mask(text)
+        hit = None
+        for mm in re.finditer(r'\bmatch\b', m):
+            o = m.find('{', mm.end())
+            if o < 0:
+                continue
+            # the scrutinee must not itself contain a block
+            c = match_close(m, o)
+            arms = []
+            i = o + 1
+            ok = True
+            while True:
+                while i < c and m[i] in ' \t\n,':
+                    i += 1
+                if i >= c:
+                    break
+                arrow = m.find('=>', i)
+                if arrow < 0 or arrow > c:
+                    ok = False
+                    break
+                pat = text[i:arrow].strip()
+                j = arrow + 2
+                while j < c and m[j] in ' \t\n':
+                    j += 1
+                if m[j] == '{':
+                    e = match_close(m, j)
+                    body = text[j:e + 1]
+                    i = e + 1
+                else:
+                    e = j
+                    while e < c and m[e] != ',':
+                        if m[e] in '([{':
+                            e = match_close(m, e)
+                        e += 1
+                    body = '{ ' + text[j:e].strip() + ' }'
+                    i = e
+                arms.append((pat, body))
+            if not ok or len(arms) < 2 or arms[-1][0] != '_':
+                continue
+            lits = []
+            for pat, _ in arms[:-1]:
+                ml = re.fullmatch(r'Some\(\s*("[^"\\]*")\s*\)', pat)
+                if not ml:
+                    ok = False
+                    break
+                lits.append(ml.group(1))
+            if not ok or len(set(lits)) != len(lits):
+                continue
+            hit = (mm.start(), o, c, arms, lits)
+            break
+        if not hit:
+            return text
+        start, o, c, arms, lits = hit
+        scrut = text[start + 5:o].strip()
+        chain = ' else '.join('if opt_str_is(&m__, %s) %s' % (l, b) for l, (_, b) in zip(lits, arms[:-1]))
+        after = '{ let m__ = %s; %s else %s }' % (scrut, chain, arms[-1][1])
+        log.append(dict(rule='R22', before=text[start:o + 1][:160] + ' ... }', after=after[:300]))
+        text = text[:start] + after + text[c + 1:]
+
+
 IF_MORE_BODY = 'Ok(match r.is_empty() { true => None, _ => Some(f(r)?), })'
 
 
@@ -813,7 +878,7 @@ def rule_R4g(text, log):
         text = text[:s0] + after + text[bc + 1:]
 
 
-RULES = {'R9z': rule_R9z, 'R4g': rule_R4g, 'R8i': rule_R8i, 'R9': rule_R9, 'R3c': rule_R3c, 'R19p': rule_R19p, 'R4e': rule_R4e, 'R4f': rule_R4f, 'R19': rule_R19, 'R9b': rule_R9b, 'R18': rule_R18, 'R4b': rule_R4b, 'R4c': rule_R4c, 'R4d': rule_R4d, 'R9c': rule_R9c, 'R16': rule_R16, 'R5': rule_R5, 'R15': rule_R15, 'R6bp': rule_R6bp,
+RULES = {'R22': rule_R22, 'R9z': rule_R9z, 'R4g': rule_R4g, 'R8i': rule_R8i, 'R9': rule_R9, 'R3c': rule_R3c, 'R19p': rule_R19p, 'R4e': rule_R4e, 'R4f': rule_R4f, 'R19': rule_R19, 'R9b': rule_R9b, 'R18': rule_R18, 'R4b': rule_R4b, 'R4c': rule_R4c, 'R4d': rule_R4d, 'R9c': rule_R9c, 'R16': rule_R16, 'R5': rule_R5, 'R15': rule_R15, 'R6bp': rule_R6bp,
     'R1': rule_R1, 'R2': rule_R2, 'R3': rule_R3, 'R3b': rule_R3b, 'R4': rule_R4,
     'R6': rule_R6, 'R6b': rule_R6b, 'R6c': rule_R6c,
 }
